@@ -159,7 +159,8 @@ class Build:
             return src
         tag = hashlib.sha1(','.join(ov).encode()).hexdigest()[:10]
         dst = os.path.join(self.gb, '%s.%s.gb' % (unit, tag))
-        if not os.path.exists(dst):
+        with Build._lock:
+          if not os.path.exists(dst):
             tmp = dst + '.%d.tmp' % os.getpid()
             args = []
             for f in ov:
@@ -169,8 +170,12 @@ class Build:
                 raise RuntimeError('goto-instrument failed: ' + r.stdout + r.stderr)
             os.rename(tmp, dst)
         return dst
+        if False:
+            pass
+        return dst
 
     _defcache = {}
+    _lock = __import__('threading').Lock()
 
     def _defs(self, unit):
         k = (self.dir, unit)
@@ -193,7 +198,7 @@ class Inst:
 
     def __init__(self, name, harness, defs=None, units=(), overrides=(), unwind=8, unwindset=(), safety=False,
                  backends=('sat',), timeout=60, mem_gb=8, extra=(), bound=None, witness=True, replay=True,
-                 family=None, expect_fail=None, nd_hint=None):
+                 family=None, expect_fail=None, nd_hint=None, files=None, native_units=()):
         self.name = name
         self.harness = harness
         self.defs = dict(defs or {})
@@ -212,6 +217,8 @@ class Inst:
         self.family = family or harness
         self.expect_fail = expect_fail  # regex on assertion text: a *known finding probe* that must fail
         self.nd_hint = nd_hint
+        self.native_units = list(native_units)   # extra units only the native replay needs to link
+        self.files = dict(files or {})   # generated include files (name -> text), written next to the instance
 
 
 BACKEND_FLAGS = {
@@ -255,11 +262,13 @@ class Runner:
         os.makedirs(d, exist_ok=True)
         hsrc = os.path.join(VERIF, 'harness', inst.harness)
         hgb = os.path.join(d, 'h.gb')
+        for fn, txt in inst.files.items():
+            open(os.path.join(d, fn), 'w').write(txt)
         defs = dict(inst.defs)
         if witness:
             defs['WITNESS'] = None
-        r = sh(['goto-cc', '-I', self.b.uf, '-I', os.path.join(VERIF, 'harness'), '-D' + GUARD, '-D__NO_CTYPE',
-                '--export-file-local-symbols'] + _defs_args(defs) + ['-c', hsrc, '-o', hgb])
+        r = sh(['goto-cc', '-I', d, '-I', self.b.uf, '-I', os.path.join(VERIF, 'harness'), '-D' + GUARD, '-D__NO_CTYPE']
+               + _defs_args(defs) + ['-c', hsrc, '-o', hgb])
         if r.returncode:
             return None, 'goto-cc failed: ' + (r.stdout + r.stderr)[-3000:]
         gbs = [hgb] + [self.b.unit_gb(u, inst.overrides) for u in inst.units]
@@ -386,6 +395,8 @@ class Runner:
             p = os.path.join(VERIF, 'harness', inc)
             if os.path.exists(p):
                 src += open(p).read()
+        for txt in inst.files.values():
+            src += txt
         return set(re.findall(r'\bND(?:_ARR)?\(\s*[^,()]+(?:\([^)]*\))?[^,]*,\s*(\w+)', src))
 
     def replay(self, inst, cex, outdir):
@@ -398,9 +409,11 @@ class Runner:
                    'cbmc_property': cex.get('property'), 'values': {k: hex(v) for k, v in cex['values'].items()}},
                   open(os.path.join(outdir, 'input.json'), 'w'), indent=1)
         shutil.copy(os.path.join(VERIF, 'harness', inst.harness), os.path.join(outdir, 'replay.c'))
+        for fn, txt in inst.files.items():
+            open(os.path.join(outdir, fn), 'w').write(txt)
         exe = os.path.join(outdir, 'replay.bin')
-        objs = [os.path.join(self.b.nat, u + '.o') for u in inst.units]
-        cmd = ['gcc', '-O0', '-g', '-w', '-fno-builtin', '-DREPLAY', '-D' + GUARD, '-I', self.b.raw,
+        objs = [os.path.join(self.b.nat, u + '.o') for u in list(inst.units) + [x for x in inst.native_units if x not in inst.units]]
+        cmd = ['gcc', '-O0', '-g', '-w', '-fno-builtin', '-DREPLAY', '-D' + GUARD, '-I', outdir, '-I', self.b.raw,
                '-I', os.path.join(VERIF, 'harness')] + _defs_args(inst.defs) + \
               [os.path.join(VERIF, 'harness', inst.harness), os.path.join(VERIF, 'harness', 'replay_rt.c')] + objs + ['-lm', '-o', exe]
         with open(os.path.join(outdir, 'run.sh'), 'w') as f:
